@@ -10,6 +10,7 @@ import (
 	"strconv"
 	"strings"
 	"sync"
+	"sync/atomic"
 	"testing"
 	"time"
 
@@ -29,6 +30,12 @@ type vfC09Case struct {
 	// Pending[k]: ids of SendIQ requests the application has outstanding on connection k; the history of that
 	// connection contains their results, which are stanzas like any other
 	Pending [][]string `json:"pending,omitempty"`
+	// PartialCut[k]: right before connection k is cut, the peer writes the beginning of one more stanza (start tag and
+	// some content): it was not received, so it is not counted
+	PartialCut []bool `json:"partial_cut,omitempty"`
+	// InHandler: the application resumes synchronously inside the Disconnected event handler (what a StreamManager
+	// does) instead of after the event has been delivered
+	InHandler bool `json:"in_handler,omitempty"`
 }
 
 type vfC09Obs struct {
@@ -138,6 +145,9 @@ func vfC09Run(run *vfkit.Run, cs *vfC09Case) {
 		}
 		obs.answers[k] = hs
 		obs.mu.Unlock()
+		if k < len(cs.PartialCut) && cs.PartialCut[k] {
+			pc.Send(fmt.Sprintf("<message id='partial-%d' from='peer@example.org/r' type='chat'><body>cut in the mid", k))
+		}
 		pc.Close() // FIN: the client loses the connection
 	})
 	defer peer.Stop()
@@ -156,6 +166,17 @@ func vfC09Run(run *vfkit.Run, cs *vfC09Case) {
 		return
 	}
 	cobs.catchAll(c.router)
+	resumedCh := make(chan error, 8)
+	if cs.InHandler {
+		var resumes int32
+		c.SetHandler(func(e Event) error {
+			cobs.onEvent(e)
+			if e.State.state == StateDisconnected && int(atomic.AddInt32(&resumes, 1)) < nconn {
+				resumedCh <- c.Resume()
+			}
+			return nil
+		})
+	}
 	if err := c.Connect(); err != nil {
 		run.Inconclusive("connect-failed")
 		run.Note(err.Error())
@@ -196,9 +217,22 @@ func vfC09Run(run *vfkit.Run, cs *vfC09Case) {
 				go c.Disconnect()
 				return
 			}
-			if err := c.Resume(); err != nil {
+			var rerr error
+			if cs.InHandler {
+				select {
+				case rerr = <-resumedCh:
+				case <-time.After(20 * time.Second):
+					run.Inconclusive("resume-in-handler-watchdog")
+					go c.Disconnect()
+					return
+				}
+				run.Count("resumes_inside_disconnected_handler", 1)
+			} else {
+				rerr = c.Resume()
+			}
+			if rerr != nil {
 				run.Inconclusive("resume-failed")
-				run.Note(err.Error())
+				run.Note(rerr.Error())
 				go c.Disconnect()
 				return
 			}
@@ -316,7 +350,9 @@ func TestVf_C09(t *testing.T) {
 					cs.Segments = append(cs.Segments, seg)
 					cs.Pending = append(cs.Pending, pend)
 					cs.Refused = append(cs.Refused, s > 0 && r.Intn(3) == 0)
+					cs.PartialCut = append(cs.PartialCut, nseg > 1 && r.Intn(2) == 0)
 				}
+				cs.InHandler = nseg > 1 && r.Intn(2) == 0
 				run.Case(cs)
 				if c < 2 {
 					var kinds []string
